@@ -21,7 +21,7 @@ None == "none"
 Inf  == 1000000000         \* energy of accounts that are not tracked (rich accounts)
 
 VARIABLES cfg,      \* [limit, lpa, lifetime, identity]  pool options + which promote rule (never changes in a run)
-          txs,      \* hash -> [id, org, dlg, cost, costs, cap, prios, priosnw, prio, prio0, ref, exp, dep, typed]     what is known about signed txs
+          txs,      \* hash -> [k (the hash itself), id, org, dlg, cost, costs, cap, prios, priosnw, prio, prio0, ref, exp, dep, typed]     what is known about signed txs
                     \*         (cap: the most it pays per gas; prio: priority fee from GALACTICA on, prio0: before)
           objs,     \* object id -> [h, src, t, flag, priced, cost, pay, prio]
           byHash,   \* hash -> object id          (mapByHash: THE pool)
@@ -29,7 +29,7 @@ VARIABLES cfg,      \* [limit, lpa, lifetime, identity]  pool options + which pr
           quota,    \* account -> count           (entries are deleted when they reach 0)
           cost,     \* account -> pending cost    (entries are deleted when they reach 0)
           pub,      \* published executables: sequence of [h, prio]
-          head,     \* [id, num, incl, rev, energy, basefee, bf, refresh, gala, synced]  facts about the best block (basefee: of the NEXT block)
+          head,     \* [id, num, incl, rev, energy, payers, basefee, bf, refresh, gala, synced]  facts about the best block (basefee: of the NEXT block)
           blocked,  \* fetched blocklist
           tick,     \* housekeeping locals: [seen (id of the head at the last tick), added (addedAfterWash > 0)]
           w,        \* the in-flight wash
@@ -55,6 +55,12 @@ LexLess(a, b) == IF a = <<>> \/ b = <<>> THEN FALSE
                  ELSE IF Head(a) # Head(b) THEN Head(a) < Head(b) ELSE LexLess(Tail(a), Tail(b))
 
 Payer(tx)   == IF tx.dlg # None THEN tx.dlg ELSE tx.org
+\* who is charged when the tx is priced against head hd.  A tx that is not delegated and whose clauses all go to one
+\* account with a credit plan may be paid by that account's sponsor, or by the account itself, before its origin (prototype);
+\* that depends on credit and energies in the head's state: the head lists the payer of such txs (key tx.k, "nobody" if not
+\* even the origin can pay)
+Nobody == "nobody"
+PayerAt(tx, hd) == IF tx.k \in DOMAIN hd.payers THEN hd.payers[tx.k] ELSE Payer(tx)
 \* what the payer is charged up front when the tx is priced against head hd: gas x effective price.  For a dynamic-fee tx
 \* whose fee cap leaves head-room the effective price moves with the base fee; costs lists the value per base fee (key hd.bf)
 \* where it differs from tx.cost.  The pool computes it ONCE, when the object becomes executable, and accounts that value
@@ -96,7 +102,7 @@ Evaluate(tx, hd) ==
   ELSE IF tx.dep # None /\ tx.dep \in hd.rev THEN Drop("depreverted")
   ELSE IF tx.ref > n THEN [r |-> "nonexec"]
   ELSE IF LexLess(tx.cap, hd.basefee) THEN Drop("unpayable")       \* BuyGas: gas price is less than block base fee
-  ELSE IF Energy(hd, Payer(tx)) < CostAt(tx, hd) THEN Drop("unpayable")   \* BuyGas: insufficient energy
+  ELSE IF PayerAt(tx, hd) = Nobody \/ Energy(hd, PayerAt(tx, hd)) < CostAt(tx, hd) THEN Drop("unpayable")   \* BuyGas: insufficient energy
   ELSE [r |-> "exec"]
 
 \* checkTxPriority: strictly above the published tx at the 90th percentile
@@ -134,30 +140,30 @@ AddVerdict(h, exec, hd) ==
   IF h \in DOMAIN byHash THEN "dup"
   ELSE IF At(quota, tx.org, 0) >= LimitPerAccount THEN "quota"
   ELSE IF tx.dlg # None /\ At(quota, tx.dlg, 0) >= LimitPerAccount THEN "dquota"
-  ELSE IF exec /\ hd.synced /\ At(cost, Payer(tx), 0) + CostAt(tx, hd) > Energy(hd, Payer(tx)) THEN "payer"
+  ELSE IF exec /\ hd.synced /\ At(cost, PayerAt(tx, hd), 0) + CostAt(tx, hd) > Energy(hd, PayerAt(tx, hd)) THEN "payer"
   ELSE "ok"
 
-NewObj(h, src, t, exec, pr, c) ==
+NewObj(h, src, t, exec, pr, c, py) ==
   LET tx == txs[h] IN
   [h |-> h, src |-> src, t |-> t, flag |-> exec, priced |-> exec,
-   cost |-> IF exec THEN c ELSE 0, pay |-> IF exec THEN Payer(tx) ELSE None, prio |-> IF exec THEN pr ELSE <<>>]
+   cost |-> IF exec THEN c ELSE 0, pay |-> IF exec THEN py ELSE None, prio |-> IF exec THEN pr ELSE <<>>]
 
 \* pr: the priority the implementation computed (a fact; equal to txs[h].prio in the model-checking configs)
 AddLocked(o, h, src, t, exec, hd, pr) ==
   LET tx == txs[h] IN
   IF AddVerdict(h, exec, hd) # "ok" THEN UNCHANGED <<objs, byHash, byID, quota, cost>>
   ELSE /\ o \notin DOMAIN objs
-       /\ objs' = Put(objs, o, NewObj(h, src, t, exec, pr, CostAt(tx, hd)))
+       /\ objs' = Put(objs, o, NewObj(h, src, t, exec, pr, CostAt(tx, hd), PayerAt(tx, hd)))
        /\ byHash' = Put(byHash, h, o)
        /\ byID' = Put(byID, tx.id, o)
        /\ quota' = IncQ(quota, tx)
-       /\ cost' = IF exec THEN AddCost(cost, Payer(tx), CostAt(tx, hd)) ELSE cost
+       /\ cost' = IF exec THEN AddCost(cost, PayerAt(tx, hd), CostAt(tx, hd)) ELSE cost
 
 \* txObjectMap.Fill, one element: no limit check, no cost
 FillLocked(o, h, t) ==
   IF h \in DOMAIN byHash THEN UNCHANGED <<objs, byHash, byID, quota, cost>>
   ELSE /\ o \notin DOMAIN objs
-       /\ objs' = Put(objs, o, NewObj(h, "fill", t, FALSE, <<>>, 0))
+       /\ objs' = Put(objs, o, NewObj(h, "fill", t, FALSE, <<>>, 0, None))
        /\ byHash' = Put(byHash, h, o)
        /\ byID' = Put(byID, txs[h].id, o)
        /\ quota' = IncQ(quota, txs[h])
@@ -219,12 +225,15 @@ EvalOf(o, outlived) ==
 
 \* lock-free evaluation of the next object; publishes the pricing of an object that was not executable.
 \* pr: the object's priority after the evaluation (a fact of the implementation when it is refreshed).
-\* the priority an object has after wash evaluated it: computed afresh when the pricing is published now, and refreshed
-\* for an already priced object when the head changed AND that head's own base fee differs from its parent's (hd.refresh);
-\* otherwise it keeps what it had
+\* the priority an object has after wash evaluated it.  Executables are published in non-increasing priority order, so a
+\* priced object's priority has to be the one that holds for the block the wash works towards: PrioOf(tx, w.hd) - computed
+\* afresh when the pricing is published now, brought up to date otherwise (the base fee of that block may differ from the
+\* one the object was priced with, proved work may have expired).  Before GALACTICA nothing is refreshed (no base fee).
+\* [The pinned code refreshes only when the head's OWN base fee differs from its parent's - one block after the base fee
+\*  that pricing uses has moved, and never for expired work alone: hd.refresh / w.chg record that rule's inputs; see C18.py.]
 EvalPrio(o) ==
   LET ob == objs[o] tx == txs[ob.h] IN
-  IF (~ob.flag /\ EvalOf(o, FALSE).r = "exec") \/ (ob.priced /\ w.chg /\ w.hd.refresh) THEN PrioOf(tx, w.hd) ELSE ob.prio
+  IF (~ob.flag /\ EvalOf(o, FALSE).r = "exec") \/ (ob.priced /\ w.hd.gala) THEN PrioOf(tx, w.hd) ELSE ob.prio
 
 WashEval(outlived, pr) ==
   /\ w.pc = "eval" /\ w.i <= Len(w.snap)
@@ -236,7 +245,7 @@ WashEval(outlived, pr) ==
          local == ob.src = "local"
      IN /\ objs' = IF e.r = "exec"
                    THEN IF ob.flag THEN [objs EXCEPT ![o].prio = pr]
-                        ELSE [objs EXCEPT ![o].priced = TRUE, ![o].cost = CostAt(tx, w.hd), ![o].pay = Payer(tx), ![o].prio = pr]
+                        ELSE [objs EXCEPT ![o].priced = TRUE, ![o].cost = CostAt(tx, w.hd), ![o].pay = PayerAt(tx, w.hd), ![o].prio = pr]
                    ELSE IF e.r = "nonexec" /\ ob.priced THEN [objs EXCEPT ![o].prio = pr]     \* refreshed all the same
                    ELSE objs
         /\ w' = [w EXCEPT !.i = @ + 1,
@@ -404,8 +413,9 @@ Justified(d) ==
     [] d.why = "settled"      -> tx.id \in d.hd.incl
     [] d.why = "depreverted"  -> tx.dep \in d.hd.rev
     [] d.why = "inadmissible" -> tx.ref > d.hd.num + 31 \/ (tx.typed /\ ~d.hd.gala)
-    [] d.why = "unpayable"    -> \/ Energy(d.hd, Payer(tx)) < CostAt(tx, d.hd) \/ LexLess(tx.cap, d.hd.basefee)
-                                 \/ (d.a > d.b /\ d.b = Energy(d.hd, Payer(tx)))
+    [] d.why = "unpayable"    -> \/ PayerAt(tx, d.hd) = Nobody \/ Energy(d.hd, PayerAt(tx, d.hd)) < CostAt(tx, d.hd)
+                                 \/ LexLess(tx.cap, d.hd.basefee)
+                                 \/ d.a > d.b
     [] d.why = "blocked"      -> IsBlocked(tx)
     [] d.why = "outlived"     -> d.src # "local" /\ Lifetime # "never"
     [] d.why = "displaced"    -> d.src # "local" /\ (d.a > Limit \/ d.a + d.b > Limit \/ d.b > nl)
